@@ -18,6 +18,8 @@ import (
 	"net"
 	"sync"
 	"time"
+
+	"github.com/honeytrap/honeytrap/utils/verifhook"
 )
 
 var (
@@ -66,6 +68,8 @@ func (dc *agentConnection) Read(b []byte) (int, error) {
 		return n, nil
 	}
 	dc.m.Unlock()
+
+	verifhook.Point("agent.read.prewait")
 
 	after := noDeadline
 
